@@ -411,18 +411,23 @@ def gen_c13() -> Tuple[str, Dict[str, str]]:
     skel["lexer.py:t_IDENTIFIER.regex"] = doc
 
     # ---- formatters ------------------------------------------------------------------------
-    def template_of(fn: ast.FunctionDef, what: str) -> Tuple[str, str]:
+    def template_of(fn: ast.FunctionDef, what: str, may_escape: bool = False) -> Tuple[str, str, bool]:
+        """`return "<pre>{0}<suf>".format(value)` or, for strings, `.format(self.escape_str_value(value))`"""
         body = strip_doc(fn)
         if len(body) == 1 and isinstance(body[0], ast.Return):
             v = body[0].value
             if isinstance(v, ast.Call) and isinstance(v.func, ast.Attribute) and v.func.attr == "format" \
                     and isinstance(v.func.value, ast.Constant) and isinstance(v.func.value.value, str) \
-                    and len(v.args) == 1 and not v.keywords and ast.unparse(v.args[0]) == "value":
+                    and len(v.args) == 1 and not v.keywords:
+                arg = ast.unparse(v.args[0])
+                escaped = may_escape and arg == "self.escape_str_value(value)"
                 t = v.func.value.value
-                if t.count("{0}") == 1 and t.replace("{0}", "").count("{") == 0 and t.replace("{0}", "").count("}") == 0:
+                if (arg == "value" or escaped) and t.count("{0}") == 1 \
+                        and t.replace("{0}", "").count("{") == 0 and t.replace("{0}", "").count("}") == 0:
                     pre, suf = t.split("{0}")
-                    return pre, suf
-        raise Broken(f"translate_c13: {what} is not `return \"...{{0}}...\".format(value)`", ast.unparse(fn)[:300])
+                    return pre, suf, escaped
+        raise Broken(f"translate_c13: {what} is not `return \"...{{0}}...\".format(value)` "
+                     f"(or, for strings, `.format(self.escape_str_value(value))`)", ast.unparse(fn)[:300])
 
     def bool_of(fn: ast.FunctionDef, what: str) -> Tuple[str, str]:
         body = strip_doc(fn)
@@ -473,12 +478,14 @@ def gen_c13() -> Tuple[str, Dict[str, str]]:
         "py": ("compiler/bitproto/renderer/impls/py/formatter.py", "PyFormatter",
                "compiler/bitproto/renderer/impls/py/renderer.py", "render"),
     }
+    any_escaped = False
     for lang, (frel, fcls, rrel, rmeth) in lang_files.items():
         _, ftree = _read(frel)
         F = _class(ftree, fcls, frel)
         bt, bf = bool_of(_method(F, "format_bool_value"), f"{fcls}.format_bool_value")
-        ipre, isuf = template_of(_method(F, "format_int_value"), f"{fcls}.format_int_value")
-        spre, ssuf = template_of(_method(F, "format_str_value"), f"{fcls}.format_str_value")
+        ipre, isuf, _ = template_of(_method(F, "format_int_value"), f"{fcls}.format_int_value")
+        spre, ssuf, sesc = template_of(_method(F, "format_str_value"), f"{fcls}.format_str_value", may_escape=True)
+        any_escaped = any_escaped or sesc
         out.append(f"(* {frel} *)")
         out.append(f"Definition {lang}_bool_true : list Z := {codes(bt)}.")
         out.append(f"Definition {lang}_bool_false : list Z := {codes(bf)}.")
@@ -486,6 +493,7 @@ def gen_c13() -> Tuple[str, Dict[str, str]]:
         out.append(f"Definition {lang}_int_suffix : list Z := {codes(isuf)}.")
         out.append(f"Definition {lang}_str_prefix : list Z := {codes(spre)}.")
         out.append(f"Definition {lang}_str_suffix : list Z := {codes(ssuf)}.")
+        out.append(f"Definition {lang}_str_escaped : bool := {'true' if sesc else 'false'}.")
         if lang != "c":
             out.append(f"Definition {lang}_int_type : list Z := "
                        f"{codes(const_str(_method(F, 'format_int_value_type'), fcls + '.format_int_value_type'))}.")
@@ -505,6 +513,7 @@ def gen_c13() -> Tuple[str, Dict[str, str]]:
     rel = "compiler/bitproto/renderer/formatter.py"
     _, ftree = _read(rel)
     F = _class(ftree, "Formatter", rel)
+    out.extend(escape_helper(F, any_escaped, skel))
     skel["formatter.py:Formatter.format_value"] = skeleton_digest(_method(F, "format_value"))
     skel["formatter.py:Formatter.format_constant_type"] = skeleton_digest(_method(F, "format_constant_type"))
     rel = "compiler/bitproto/renderer/block.py"
@@ -514,6 +523,86 @@ def gen_c13() -> Tuple[str, Dict[str, str]]:
         skel[f"block.py:BlockBindConstant.{mname}"] = skeleton_digest(_method(BB, mname))
 
     return "\n".join(out) + "\n", skel
+
+
+def escape_helper(F: ast.ClassDef, used: bool, skel: Dict[str, str]) -> List[str]:
+    """Formatter.escape_str_value:
+         escapes = {<char>: <replacement>, ...}
+         chars = []
+         for c in value:
+             if c in escapes: chars.append(escapes[c])
+             elif <COND over ord(c)>: chars.append("<pre>{0:03o}".format(ord(c)))
+             else: chars.append(c)
+         return "".join(chars)
+    The table, COND and <pre> are translated; the loop shape is checked here (fail closed)."""
+    out = ["(* renderer/formatter.py: Formatter.escape_str_value — replacement table, the condition under which",
+           "   a character is written as <prefix> + three octal digits, and that prefix *)"]
+    if not any(isinstance(n, ast.FunctionDef) and n.name == "escape_str_value" for n in F.body):
+        if used:
+            raise Broken("translate_c13: format_str_value calls escape_str_value, which Formatter does not define")
+        out += ["Definition str_escapes : list (Z * list Z) := [].",
+                "Definition str_ctrl (c : Z) : bool := false.",
+                "Definition str_ctrl_prefix : list Z := [].", ""]
+        return out
+    fn = _method(F, "escape_str_value")
+    body = strip_doc(fn)
+    what = "Formatter.escape_str_value"
+
+    def bad(why: str) -> None:
+        raise Broken(f"translate_c13: {what}: {why}", ast.unparse(fn)[:600])
+
+    if [a.arg for a in fn.args.args] != ["self", "value"] or len(body) != 4:
+        bad("unexpected signature or statement count")
+    s0, s1, s2, s3 = body
+    if not (isinstance(s0, ast.Assign) and ast.unparse(s0.targets[0]) == "escapes" and isinstance(s0.value, ast.Dict)):
+        bad("first statement is not `escapes = {...}`")
+    table = _lit(s0.value, what + " escapes")
+    if not all(isinstance(k, str) and len(k) == 1 and ord(k) < 128 and isinstance(v, str) and v and
+               all(ord(ch) < 128 for ch in v) for k, v in table.items()):
+        bad("escapes is not a dict from single ASCII characters to non-empty ASCII strings")
+    tgt = s1.target if isinstance(s1, ast.AnnAssign) else (s1.targets[0] if isinstance(s1, ast.Assign) else None)
+    if tgt is None or ast.unparse(tgt) != "chars" or ast.unparse(s1.value) != "[]":
+        bad("second statement is not `chars = []`")
+    if not (isinstance(s3, ast.Return) and ast.unparse(s3.value) in ("''.join(chars)", '"".join(chars)')):
+        bad("last statement is not `return \"\".join(chars)`")
+    if not (isinstance(s2, ast.For) and ast.unparse(s2.target) == "c" and ast.unparse(s2.iter) == "value"
+            and not s2.orelse and len(s2.body) == 1 and isinstance(s2.body[0], ast.If)):
+        bad("third statement is not `for c in value: if ...`")
+    i1 = s2.body[0]
+    if not (ast.unparse(i1.test) == "c in escapes" and len(i1.body) == 1
+            and ast.unparse(i1.body[0]) == "chars.append(escapes[c])"
+            and len(i1.orelse) == 1 and isinstance(i1.orelse[0], ast.If)):
+        bad("first branch is not `if c in escapes: chars.append(escapes[c])` followed by elif")
+    i2 = i1.orelse[0]
+    if not (len(i2.orelse) == 1 and ast.unparse(i2.orelse[0]) == "chars.append(c)" and len(i2.body) == 1):
+        bad("the else branch is not `chars.append(c)`")
+    call = i2.body[0].value if isinstance(i2.body[0], ast.Expr) else None
+    ok = (isinstance(call, ast.Call) and ast.unparse(call.func) == "chars.append" and len(call.args) == 1
+          and isinstance(call.args[0], ast.Call) and isinstance(call.args[0].func, ast.Attribute)
+          and call.args[0].func.attr == "format" and isinstance(call.args[0].func.value, ast.Constant)
+          and isinstance(call.args[0].func.value.value, str) and len(call.args[0].args) == 1
+          and ast.unparse(call.args[0].args[0]) == "ord(c)")
+    if not ok:
+        bad("the elif branch is not `chars.append(\"<pre>{0:03o}\".format(ord(c)))`")
+    fmt = call.args[0].func.value.value
+    if not fmt.endswith("{0:03o}") or "{" in fmt[:-7] or "}" in fmt[:-7]:
+        bad(f"format string {fmt!r} is not <prefix>{{0:03o}}")
+
+    class _Ord(ast.NodeTransformer):
+        def visit_Call(self, node: ast.Call) -> ast.AST:
+            if isinstance(node.func, ast.Name) and node.func.id == "ord" and len(node.args) == 1 \
+                    and isinstance(node.args[0], ast.Name) and node.args[0].id == "c":
+                return ast.copy_location(ast.Name(id="c", ctx=ast.Load()), node)
+            return self.generic_visit(node)
+
+    cond = _Ord().visit(ast.parse(ast.unparse(i2.test), mode="eval").body)
+    tr = Tr(what)
+    out.append("Definition str_escapes : list (Z * list Z) := [" +
+               "; ".join(f"({ord(k)}, {codes(v)})" for k, v in table.items()) + "].")
+    out.append(f"Definition str_ctrl (c : Z) : bool := {tr.b(cond, {'c': 'c'})}.")
+    out.append(f"Definition str_ctrl_prefix : list Z := {codes(fmt[:-7])}.")
+    out.append("")
+    return out
 
 
 GENERATORS = {"GenC13.v": gen_c13}
